@@ -8,7 +8,7 @@
        validated against `git check-ignore --no-index`. *)
 From Coq Require Import Bool Arith Ascii String List.
 From CBI Require Import Lib.Res Lib.Data Lib.C09_glob Gen.C09_tables Model.C09 Spec.C09
-                        Proofs.C09p Proofs.C09 Proofs.C09f Proofs.C09e Proofs.C09t.
+                        Proofs.C09p Proofs.C09 Proofs.C09f Proofs.C09e Proofs.C09t Proofs.C09r.
 Import ListNotations.
 Local Open Scope string_scope.
 Local Open Scope list_scope.
@@ -49,6 +49,21 @@ Theorem C09_spelling_independent :
     contains fs c1 cb s1 = contains fs c2 cb s2 /\ member fs c1 cb s1 = member fs c2 cb s2.
 Proof. exact spelling_independent. Qed.
 Print Assumptions C09_spelling_independent.
+
+(* Compositionality of resolution, the content behind "however it is spelled": if two
+   texts s1, s2 (asked from process directories c1, c2) name the same directory d -
+   relative, absolute, with `..`, through any chain of links - then for EVERY
+   continuation q the paths s1/q and s2/q (when they resolve at all, i.e. hit no link
+   cycle) get the same answer from `in` and from the specification. *)
+Theorem C09_respelled_prefix :
+  forall (fs : fsys) (cb : codebase) (c1 c2 : path) (s1 s2 q : string) (d : path),
+    s1 <> "" -> s2 <> "" ->
+    resolve fs c1 s1 = Ok d -> resolve fs c2 s2 = Ok d ->
+    (exists r1, resolve fs c1 (join s1 q) = Ok r1) -> (exists r2, resolve fs c2 (join s2 q) = Ok r2) ->
+    contains fs c1 cb (join s1 q) = contains fs c2 cb (join s2 q) /\
+    member fs c1 cb (join s1 q) = member fs c2 cb (join s2 q).
+Proof. exact respelled_prefix_text. Qed.
+Print Assumptions C09_respelled_prefix.
 
 (* resolve produces link-free paths and is idempotent on them (any fuel, any links) *)
 Theorem C09_resolve_idempotent :
@@ -248,6 +263,8 @@ Example C09_nonvacuous :
   map (member C09_fs ["r"; "a"] C09_cb)
       ["x.c"; "../ld/x.c"; "/r/lx.txt"; "z.h"; "../x.c"; "/r/build/z.c"; "/r/lo/o.c"; "/r/dang.c"; "../notes.txt"; "."]
     = [Ok true; Ok true; Ok true; Ok true; Ok false; Ok false; Ok false; Ok false; Ok false; Ok false] /\
+  resolve C09_fs ["r"; "a"] "../ld" = resolve C09_fs [] "/r/a/../a" /\
+  (exists r, resolve C09_fs ["r"; "a"] (join "../ld" "x.c") = Ok r) /\
   iter C09_fs C09_cb = Ok [["r"; "a"; "x.c"]; ["r"; "a"; "z.h"]; ["r"; "lx.txt"]] /\
   members C09_fs C09_cb = Ok [["r"; "a"; "x.c"]; ["r"; "a"; "z.h"]].
 Proof.
@@ -259,5 +276,5 @@ Proof.
   - eexists. split; [vm_compute; reflexivity|]. split; [reflexivity|].
     intros cs Hin. cbn in Hin.
     repeat (destruct Hin as [<-|Hin]; [vm_compute; split; reflexivity|]). destruct Hin.
-  - vm_compute. repeat split.
+  - vm_compute. repeat split. eexists. reflexivity.
 Qed.
